@@ -136,14 +136,87 @@ def _mono_mul(m1, m2):
     return tuple(sorted(((b, e) for b, e in d.items() if e != 0), key=_key))
 
 
+def _is_sqrt(b):
+    return isinstance(b, tuple) and len(b) == 4 and b[0] == "f" and b[1] == "sqrt" and len(b[2]) == 1 and not b[3]
+
+
 def mul(a, b):
     da, db = _as_dict(a), _as_dict(b)
     d: dict = {}
+    extra = []
     for m1, c1 in da.items():
         for m2, c2 in db.items():
             m = _mono_mul(m1, m2)
+            if any(_is_sqrt(b) and abs(e) >= 2 for b, e in m):
+                # sqrt(t)**2 == t
+                term = const(c1 * c2)
+                for b, e in m:
+                    if _is_sqrt(b) and abs(e) >= 2:
+                        q, r = divmod(abs(e), 2)
+                        sgn = 1 if e > 0 else -1
+                        inner = powi(b[2][0], q) if sgn > 0 else div(ONE, powi(b[2][0], q))
+                        term = mul(term, inner)
+                        if r:
+                            term = mul(term, _mk({((b, sgn),): 1}))
+                    else:
+                        term = mul(term, _mk({((b, e),): 1}))
+                extra.append(term)
+                continue
             d[m] = d.get(m, 0) + c1 * c2
-    return _mk(d)
+    r = _mk(d)
+    for t in extra:
+        r = add(r, t)
+    return r
+
+
+def expand_poly_bases(t):
+    """Expand polynomial bases that carry a positive exponent."""
+    if not is_poly(t):
+        return t
+    total = ZERO
+    changed = False
+    for m, c in t[1]:
+        term = const(c)
+        for base, e in m:
+            if is_poly(base) and e > 0:
+                changed = True
+                term = mul(term, powi(expand_poly_bases(base), e))
+            else:
+                term = _mul_by_unit(term, base, e)
+        total = add(total, term)
+    return expand_poly_bases(total) if changed else t
+
+
+def _mul_by_unit(t, base, k: int):
+    """t * base**k with *base* treated as an indivisible unit (so that
+    base**-k factors cancel), without expanding it."""
+    out: dict = {}
+    for m, c in _as_dict(t).items():
+        mm = _mono_mul(m, ((base, k),))
+        out[mm] = out.get(mm, 0) + c
+    return _mk(out)
+
+
+def rat_zero(d) -> bool:
+    """Is the rational expression *d* identically zero?  Denominators
+    (bases with negative exponents) are cleared by multiplying with the base
+    as a unit, then polynomial bases are expanded."""
+    for _ in range(6):
+        if d == ZERO:
+            return True
+        if not is_poly(d):
+            return False
+        neg_bases = {}
+        for m, _c in d[1]:
+            for base, e in m:
+                if e < 0:
+                    neg_bases[base] = max(neg_bases.get(base, 0), -e)
+        if not neg_bases:
+            return expand_poly_bases(d) == ZERO
+        for base, k in neg_bases.items():
+            d = _mul_by_unit(d, base, k)
+        d = expand_poly_bases(d)
+    return d == ZERO
 
 
 def powi(a, n: int):
